@@ -9,7 +9,8 @@ for f in os.listdir(src):
         shutil.copy(os.path.join(src, f), os.path.join(dst, f))
 meta = {"id": sid, "property": prop, "breaks": open(os.path.join(src, "notes.md")).read()[:1500] if os.path.exists(os.path.join(src, "notes.md")) else "",
         "needs_to_manifest": needs, "confirmed_by": ran if caught == "yes" or "MISSED" in ran else "MISSED by the quick check as it stood; " + ran,
-        "caught_by_check": True,  # kept changes are all caught by now; "MISSED" in confirmed_by marks the ones that needed a strengthening first "detected_as": det,
+        # kept changes are all caught by now; "MISSED" in confirmed_by marks the ones that needed a strengthening first
+        "caught_by_check": True, "detected_as": det,
         "origin": "independent sub-agent given only the property text and a scratch worktree"}
 json.dump(meta, open(os.path.join(dst, "meta.json"), "w"), indent=1)
 print("kept", dst)
